@@ -1,13 +1,15 @@
 #!/bin/sh
-# usage: confirm_seed.sh <seed id e.g. C01-A>   (expects /verif/seeded/<id>/patch.diff and demo.py)
-# Confirms in a scratch worktree: demo passes on clean HEAD, fails with the patch; baseline stays green with the patch.
+# usage: confirm_seed.sh <seed id e.g. C01-A>   (expects /verif/seeded/<id>/patch.diff [or patch_rebased_on_fix.diff] and demo.py)
+# Confirms in a scratch worktree of /repo HEAD: demo passes clean, fails with the patch; the stable baseline stays green with the patch.
 id="$1"; d=/verif/seeded/$id; wt=/tmp/cw_$id
 git -C /repo worktree add -q --detach "$wt" HEAD || exit 2
 cd "$wt" || exit 2
-clean=$(PYTHONPATH=$wt LOKY_MAX_CPU_COUNT=2 OMP_NUM_THREADS=1 timeout 900 /venv/bin/python $d/demo.py >/dev/null 2>&1; echo $?)
-git apply "$d/patch.diff" || { echo "patch does not apply"; git -C /repo worktree remove --force "$wt"; exit 2; }
-patched=$(PYTHONPATH=$wt LOKY_MAX_CPU_COUNT=2 OMP_NUM_THREADS=1 timeout 900 /venv/bin/python $d/demo.py >/dev/null 2>&1; echo $?)
-base=$(/verif/tools/baseline.py "$wt" -n 6 | head -1)
-rm -f "$wt"/*.bif "$wt"/model.* 2>/dev/null
+clean=$(PYTHONPATH=$wt LOKY_MAX_CPU_COUNT=2 OMP_NUM_THREADS=1 timeout 1200 /venv/bin/python $d/demo.py >/dev/null 2>&1; echo $?)
+pf="$d/patch.diff"
+git apply --check "$pf" 2>/dev/null || pf="$d/patch_rebased_on_fix.diff"
+git apply "$pf" || { echo "{\"seed\": \"$id\", \"error\": \"patch does not apply\"}" | tee "$d/confirm.json"; cd /; git -C /repo worktree remove --force "$wt"; exit 2; }
+patched=$(PYTHONPATH=$wt LOKY_MAX_CPU_COUNT=2 OMP_NUM_THREADS=1 timeout 1200 /venv/bin/python $d/demo.py >/dev/null 2>&1; echo $?)
+base=$(nice -n 10 /verif/tools/baseline.py "$wt" -n 5 | head -1)
+cd /
 git -C /repo worktree remove --force "$wt"
-echo "{\"seed\": \"$id\", \"demo_exit_clean\": $clean, \"demo_exit_patched\": $patched, \"baseline_with_patch\": \"$base\"}" | tee "$d/confirm.json"
+echo "{\"seed\": \"$id\", \"patch\": \"$(basename $pf)\", \"repo_head\": \"$(git -C /repo rev-parse --short HEAD)\", \"demo_exit_clean\": $clean, \"demo_exit_patched\": $patched, \"baseline_with_patch\": \"$base\"}" | tee "$d/confirm.json"
